@@ -60,6 +60,14 @@ def generate(seed, tier="quick"):
                     n_acc += 1
                     arng.choice(f["tests"])["events"].append({"t": "cmp", "eid": f"acc{n_acc}", "site": sid, "key": arng.choice(spare), "access_only": True,
                                                               "vals": [["int", 0]], "style": "rec"})
+    krng = sub(seed, "other-class")
+    if krng.random() < 0.15:
+        # the recorded value is an instance of one class, the observed one of ANOTHER class with the same fields: unequal whatever the fields hold
+        f = prog["files"][0]
+        a, b = krng.randint(0, 3), krng.randint(0, 3)
+        old_t, new_t = krng.choice([(f"DCA(v={a})", f"DCB(v={b})"), (f"DCB(v={a}, w=1)", f"DCA(v={a}, w=1)"), (f"[DCA(v={a}), 1]", f"[DCB(v={a}), 1]"), (f"DCA(v=DCB(v={a}))", f"DCA(v=DCA(v={a}))")])
+        f["sites"]["oc1"] = {"op": "eq", "place": krng.choice(["direct", "func"]), "arg": old_t, "prev": ["raw", old_t]}
+        krng.choice(f["tests"])["events"].append({"t": "cmp", "eid": "eoc1", "site": "oc1", "vals": [["raw", new_t]], "style": "rec"})
     mrng = sub(seed, "mutation")
     if mrng.random() < 0.2:
         # one site observes the same object several times while the test mutates it in between
